@@ -111,8 +111,21 @@ def mutate(rng, src, nmut):
         sig = [k for k, (kind, _) in enumerate(toks) if kind != "ws"]
         if len(sig) < 3:
             break
-        kind = rng.choice(["delete", "duplicate", "swap", "truncate", "unbalance", "nonascii", "nonascii"])
+        kind = rng.choice(["delete", "duplicate", "swap", "truncate", "unbalance", "nonascii", "nonascii", "unicode-space"])
         k = rng.choice(sig)
+        if kind == "unicode-space":
+            # non-ASCII insertion at raw-text level: one ASCII blank anywhere (code, comment, string) becomes a
+            # Unicode space
+            pos = [i for i, ch in enumerate(src) if ch in " \t"]
+            if pos:
+                # blanks directly before a non-blank are the interesting ones (alignment code looks at them)
+                edge = [i for i in pos if i + 1 < len(src) and not src[i + 1].isspace()]
+                punct = [i for i in edge if src[i + 1] in "*/{}()[]<>=|&!#\"'"]
+                r = rng.below(100)
+                i = rng.choice(punct if punct and r < 40 else edge if edge and r < 80 else pos)
+                src = src[:i] + rng.choice(["\u3000", "\u00a0", "\u2003", "\u2028", "\u1680"]) + src[i + 1:]
+            desc.append(kind)
+            continue
         if kind == "delete":
             toks.pop(k)
         elif kind == "duplicate":
@@ -146,6 +159,28 @@ def mutate(rng, src, nmut):
         desc.append(kind)
         src = "".join(t for _, t in toks)
     return src, desc
+
+
+def relayout(rng, src):
+    """re-lay out a source arbitrarily: every whitespace run is redrawn and line breaks / blanks are inserted at
+    random token boundaries (tokens themselves, incl. strings and comments, are kept)"""
+    toks = tokens(src)
+    out = []
+    ws = [" ", " ", "\n", "\n\n", "\t", "  ", "\n        ", "\r\n", " \n \n\n"]
+    prev = None
+    for kind, text in toks:
+        if kind == "ws":
+            out.append(rng.choice(ws))
+        else:
+            if prev is not None and prev != "ws" and rng.chance(12):
+                # only between tokens that do not glue into another token
+                if not (prev == "punct" and kind == "punct"):
+                    out.append(rng.choice(ws))
+            out.append(text)
+            if kind == "lcomment":
+                out.append("\n")
+        prev = kind
+    return "".join(out)
 
 
 def amplify(rng, src, depth):
